@@ -333,7 +333,7 @@ type Solver struct {
 func solvers(timeoutMs int) []Solver {
 	return []Solver{
 		{"z3-new", []string{"z3-new", fmt.Sprintf("-t:%d", timeoutMs), "-smt2"}},
-		{"cvc5", []string{"cvc5", "--incremental", fmt.Sprintf("--tlimit-per=%d", timeoutMs), "--lang=smt2"}},
+		{"cvc5", []string{"cvc5", "--incremental", "--strings-exp", fmt.Sprintf("--tlimit-per=%d", timeoutMs), "--lang=smt2"}},
 		{"z3", []string{"z3", fmt.Sprintf("-t:%d", timeoutMs), "-smt2"}},
 	}
 }
